@@ -226,3 +226,75 @@ Print Assumptions from_tk_postselection_order_witness.
 Theorem from_tk_refines_trace_refuted_malformed : forall fx, ~ from_tk_refines_trace_stmt fx.
 Proof. exact TkRouting.from_tk_refines_trace_refuted_malformed. Qed.
 Print Assumptions from_tk_refines_trace_refuted_malformed.
+
+(* ---- bit routing of the import (proofs in Tk/TkImport.v) ---- *)
+Require Import DV.Tk.TkImport.
+
+(* from_tk with the F18 and F33 repairs: every bit wire of the imported circuit and every Bra
+   carries the outcome of the tket Measure that writes that bit.  Hypotheses (booleans):
+   tk_import_ok (well-formed commands, each Measure writes one existing bit, post_selection
+   has distinct existing keys, well-typed post-processing), no F41 trigger (no command after a
+   post-selected Measure on its qubit), no F42 trigger (no post-selected bit written twice),
+   every post-selected bit is written.  tsem_ev is tsem with the commands numbered as the
+   events of the imported circuit (the commands that are not post-selected measurements in
+   order, then the post-selected measurements by increasing qubit): with a post-selection the
+   Definition from_tk_routing_ok of Tk.v (event k = command k) is not the right statement. *)
+Theorem from_tk_routing : forall fx t sid c,
+  fx18 fx = true -> fx33 fx = true -> tk_import_ok t = true ->
+  f41_trig (t_psel t) (t_cmds t) = false -> f42_trig (t_psel t) (t_cmds t) = false ->
+  no_dangling (t_psel t) (t_cmds t) = true ->
+  from_tk fx t sid = Ok c -> sem_eqb (dsem c) (tsem_ev t) = true.
+Proof. exact from_tk_routing_lemma. Qed.
+Print Assumptions from_tk_routing.
+
+(* the exact lists (no trigger hypothesis needed): the kept registers through the
+   post-processing, and one constraint per Bra in qubit order *)
+Theorem from_tk_bits_exact : forall fx t sid c,
+  fx18 fx = true -> fx33 fx = true -> tk_import_ok t = true ->
+  from_tk fx t sid = Ok c ->
+  let r := fold_left pp_step (pp_boxes (t_pp t))
+             (map (snd (ev_run t)) (idxF (t_nb t) (ps_lookup (t_psel t))),
+              flat_map (bra_constr (bras_of (t_psel t) (t_cmds t) []) (n_live (t_psel t) (t_cmds t)))
+                       (seq 0 (t_nq t))) in
+  dsem c = (fst r, snd r) /\ t_nb t - length (t_psel t) = pp_dom (t_pp t).
+Proof. exact from_tk_dsem. Qed.
+Print Assumptions from_tk_bits_exact.
+
+(* without post-selection: the Definition from_tk_routing_ok of Tk.v *)
+Theorem from_tk_routing_no_postselection : forall fx,
+  fx18 fx = true -> fx33 fx = true -> from_tk_routing_nopsel_stmt fx.
+Proof. exact from_tk_routing_nopsel_lemma. Qed.
+Print Assumptions from_tk_routing_no_postselection.
+
+(* ... which is false on a correct post-selected import (witness import_example) *)
+Theorem from_tk_routing_ok_refuted_postselection : ~ from_tk_routing_ok_stmt repaired.
+Proof. exact from_tk_routing_ok_stmt_refuted. Qed.
+Print Assumptions from_tk_routing_ok_refuted_postselection.
+
+(* tsem_ev is tsem with every command k renumbered to sigma t k, its event in the imported circuit *)
+Theorem tsem_ev_renumbers : forall t, cmds_bits_ok (t_nb t) (t_cmds t) = true ->
+  tsem_ev t = sem_map (sigma t) (tsem t).
+Proof. exact TkImport.tsem_ev_renumbers. Qed.
+Print Assumptions tsem_ev_renumbers.
+
+Theorem from_tk_routing_renumbered : forall fx t sid c,
+  fx18 fx = true -> fx33 fx = true -> tk_import_ok t = true ->
+  f41_trig (t_psel t) (t_cmds t) = false -> f42_trig (t_psel t) (t_cmds t) = false ->
+  no_dangling (t_psel t) (t_cmds t) = true ->
+  from_tk fx t sid = Ok c -> sem_eqb (dsem c) (sem_map (sigma t) (tsem t)) = true.
+Proof. exact TkImport.from_tk_routing_renumbered. Qed.
+Print Assumptions from_tk_routing_renumbered.
+
+(* round trip, conditional on the exported circuit meeting the hypotheses of the import theorem
+   and on from_tk succeeding (both hold on every generated case of the check, neither is
+   derived from to_tk here); from_tk is fed to_tk's insertion-order command list *)
+Theorem roundtrip_routing_conditional : forall fx c t sid c2,
+  fx18 fx = true -> fx33 fx = true ->
+  to_tk fx c = Ok t -> no_trigger (to_tk_flags fx c) = true ->
+  tk_import_ok t = true ->
+  f41_trig (t_psel t) (t_cmds t) = false -> f42_trig (t_psel t) (t_cmds t) = false ->
+  no_dangling (t_psel t) (t_cmds t) = true ->
+  from_tk fx t sid = Ok c2 ->
+  sem_eqb (dsem c2) (sem_map (sigma t) (dsem (prep c))) = true.
+Proof. exact TkImport.roundtrip_routing_conditional. Qed.
+Print Assumptions roundtrip_routing_conditional.
